@@ -547,92 +547,226 @@ def _mirror_pair(ctx, prog, k, anti):
 # ----------------------------------------------------------------------------- R-C03-2
 
 def _r2_nan(ctx):
+    """find_turns with its helpers expanded (closures, early returns) is read as straight-line code with a few `if`s; every path
+    through those `if`s is followed with the branch conditions remembered (a flag that holds the value of an earlier test, a name
+    that is None on one arm), so that 'the index is corrected on every path that dropped samples' can be decided although the
+    two things sit in different `if`s."""
     prog = ctx.prog
-    ctx.rule("R-C03-2", floor=4, what="NaN removal warns; mask from original samples; values before correction; correction post-dominates index creation")
-    ft = prog.func(GEN + ":find_turns")
-    nested = [fi for k, fi in prog.functions.items() if fi.parent is ft]
-    # roles, not names: the cleaning helper computes the NaN mask of its parameter; the correcting helper (in-place idiom)
-    # shifts its first parameter with an augmented subscript assignment
-    clean = next((fi for fi in nested if any(call_name(c) in ("pd.isna", "np.isnan", "pd.isnull") for c in calls_in(fi.node))), None)
-    corr = next((fi for fi in nested if fi is not clean and any(isinstance(x, ast.AugAssign) and isinstance(x.target, ast.Subscript)
-                                                                for x in walk_function(fi.node))), None)
-    if clean is None:
-        raise AnalysisError("find_turns: NaN cleaning helper not found")
+    ctx.rule("R-C03-2", floor=4, what="NaN removal warns; mask from original samples; values before correction; correction on every path that drops samples")
+    from ..inline import inlined
+    ft0 = prog.func(GEN + ":find_turns")
+    ft = inlined(prog, ft0, depth=2)
+    p0 = ft0.params[0]
+    ISNA = ("pd.isna", "np.isnan", "pd.isnull", "pd.isnull", "np.isnat")
+    body = [s_ for s_ in ft.node.body if not isinstance(s_, (ast.FunctionDef, ast.ClassDef))]
+    top = [s_ for s_ in walk_stmts(body)]
+    masks = [s_ for s_ in top if isinstance(s_, ast.Assign) and len(s_.targets) == 1 and isinstance(s_.targets[0], ast.Name) and
+             isinstance(s_.value, ast.Call) and call_name(s_.value) in ISNA]
+    if len(masks) != 1:
+        raise AnalysisError("find_turns: the statement computing the NaN mask was not found (%d candidates)" % len(masks))
+    mask = masks[0]
+    mname = mask.targets[0].id
+    rets = [s_ for s_ in body if isinstance(s_, ast.Return)]
+    if len(rets) != 1 or not isinstance(rets[0].value, ast.Tuple) or len(rets[0].value.elts) != 2 or \
+            not all(isinstance(e_, ast.Name) for e_ in rets[0].value.elts):
+        raise AnalysisError("find_turns: return (index, values) not found")
+    idx_name, val_name = (e_.id for e_ in rets[0].value.elts)
+
+    def is_not_mask(e, names, env=None):
+        if isinstance(e, ast.Name) and env and isinstance(env.get(e.id), ast.AST) and not isinstance(env[e.id], ast.Name):
+            return is_not_mask(env[e.id], names)
+        if isinstance(e, ast.UnaryOp) and isinstance(e.op, (ast.Invert, ast.Not)):
+            return isinstance(e.operand, ast.Name) and e.operand.id in names
+        if isinstance(e, ast.Call) and call_name(e) in ("np.logical_not", "np.invert") and len(e.args) == 1:
+            return isinstance(e.args[0], ast.Name) and e.args[0].id in names
+        return False
+
+    def classify(st, mask_names, sample_names, env):
+        """event kinds of a simple statement"""
+        ev = []
+        if isinstance(st, ast.Expr) and isinstance(st.value, ast.Call) and call_name(st.value) in ("warnings.warn", "warn"):
+            ev.append("warn")
+        if isinstance(st, ast.Assign):
+            for t_, v_ in tuple_assign_pairs(st):
+                if isinstance(v_, ast.Subscript) and isinstance(v_.value, ast.Name) and v_.value.id in sample_names and \
+                        is_not_mask(v_.slice, mask_names, env):
+                    ev.append("filter")
+                if isinstance(t_, ast.Name) and t_.id == idx_name:
+                    ev.append("index")
+                if isinstance(t_, ast.Name) and t_.id == val_name and isinstance(v_, ast.Subscript) and \
+                        isinstance(v_.slice, ast.Name) and v_.slice.id == idx_name:
+                    ev.append("values")
+        if isinstance(st, (ast.For, ast.While)) and any(isinstance(x_, ast.AugAssign) and isinstance(x_.target, ast.Subscript) and
+                                                          isinstance(x_.target.value, ast.Name) and x_.target.value.id == idx_name
+                                                          for x_ in walk_stmts(st.body)):
+            ev.append("correct")
+        if isinstance(st, ast.AugAssign) and isinstance(st.target, ast.Name) and st.target.id == idx_name:
+            ev.append("index")
+        return ev
+
+    paths = []
+
+    def truth(test, env, taken):
+        """True / False / None of a branch condition on the current path"""
+        txt = norm_text(test)
+        if txt in taken:
+            return taken[txt]
+        if isinstance(test, ast.UnaryOp) and isinstance(test.op, ast.Not):
+            v = truth(test.operand, env, taken)
+            return None if v is None else not v
+        if isinstance(test, ast.Name) and test.id in env:
+            d = env[test.id]
+            if d is None:
+                return None
+            if isinstance(d, ast.Constant):
+                return bool(d.value)
+            return truth(d, env, taken)
+        if isinstance(test, ast.Compare) and len(test.ops) == 1 and isinstance(test.ops[0], (ast.Is, ast.IsNot)) and \
+                const_value(test.comparators[0]) is None and isinstance(test.comparators[0], ast.Constant) and \
+                isinstance(test.left, ast.Name) and test.left.id in env and env[test.left.id] is not None:
+            d = env[test.left.id]
+            for _ in range(4):
+                if isinstance(d, ast.Name) and d.id in env and env[d.id] is not None:
+                    d = env[d.id]
+            is_none = isinstance(d, ast.Constant) and d.value is None
+            if not is_none and isinstance(d, ast.Name):
+                return None
+            return is_none if isinstance(test.ops[0], ast.Is) else not is_none
+        return None
+
+    def walk(stmts, env, taken, events, k):
+        if len(paths) > 256:
+            raise AnalysisError("find_turns: too many paths")
+        for i, st in enumerate(stmts):
+            if isinstance(st, ast.If):
+                t = truth(st.test, env, taken)
+                rest = stmts[i + 1:]
+                for arm, val in ((st.body, True), (st.orelse, False)):
+                    if t is not None and t != val:
+                        continue
+                    tk = dict(taken)
+                    tk[norm_text(st.test)] = val
+                    walk(list(arm) + list(rest), dict(env), tk, list(events), k)
+                return
+            if isinstance(st, ast.Return):
+                paths.append(events + [("return", st)])
+                return
+            if isinstance(st, ast.Raise):
+                return
+            mask_names = {n_ for n_, d_ in env.items() if n_ == mname or (isinstance(d_, ast.Name) and d_.id == mname)}
+            sample_names = {p0} | {n_ for n_, d_ in env.items() if isinstance(d_, ast.Name) and d_.id == p0}
+            for e_ in classify(st, mask_names | {mname}, sample_names, env):
+                events.append((e_, st))
+            if isinstance(st, ast.Assign):
+                for t_, v_ in tuple_assign_pairs(st):
+                    if isinstance(t_, ast.Name):
+                        env[t_.id] = v_
+                        for key_ in [k_ for k_ in taken if t_.id in names_in(parse_expr(k_))]:
+                            del taken[key_]
+            elif isinstance(st, (ast.AugAssign, ast.For, ast.While, ast.With, ast.Try)):
+                for n_ in ast.walk(st):
+                    if isinstance(n_, ast.Name) and isinstance(n_.ctx, ast.Store):
+                        env[n_.id] = None
+        paths.append(events + [("end", None)])
+
+    walk(body, {}, {}, [], 0)
+    if not paths:
+        raise AnalysisError("find_turns: no path to the return found")
+    fpaths = [p_ for p_ in paths if any(e_ == "filter" for e_, _ in p_)]
+    if not fpaths:
+        raise AnalysisError("find_turns: the statement dropping the NaN samples was not found")
     # (1) warn on every path that drops samples
-    cfg = CFG(clean.node)
-    p0 = clean.params[0]
-    drops = [s for s in walk_function(clean.node) if isinstance(s, ast.Return) and s.value is not None and
-             any(isinstance(n, ast.Subscript) and isinstance(n.value, ast.Name) and n.value.id == p0 for n in ast.walk(s.value))]
-    warns = {cfg.node(s) for s in walk_function(clean.node) if isinstance(s, ast.Expr) and isinstance(s.value, ast.Call)
-             and call_name(s.value) in ("warnings.warn", "warn")}
-    if not drops:
-        raise AnalysisError("clean_nans: filtering return not found")
-    for d in drops:
-        if warns and cfg.must_pass(cfg.node(d), warns):
-            ctx.holds(clean, d, "every path that drops samples passes warnings.warn")
+    fst = {id(st): st for p_ in fpaths for e_, st in p_ if e_ == "filter"}
+    for st in fst.values():
+        mine = [p_ for p_ in fpaths if any(s_ is st for _, s_ in p_)]
+        if all(any(e_ == "warn" for e_, _ in p_) for p_ in mine):
+            ctx.holds(ft0, st, "every path that drops samples passes warnings.warn (%d path(s))" % len(mine))
         else:
-            ctx.violated(clean, d, "samples are dropped on a path that does not warn")
-    # mask from the original samples
-    masks = [s for s in walk_function(clean.node) if isinstance(s, ast.Assign) and isinstance(s.value, ast.Call) and
-             call_name(s.value) in ("pd.isna", "np.isnan", "pd.isnull")]
-    redefined = [s for s in walk_function(clean.node) if isinstance(s, ast.Assign) and
-                 any(isinstance(t, ast.Name) and t.id == p0 for t in s.targets)]
-    if len(masks) == 1 and isinstance(masks[0].value.args[0], ast.Name) and masks[0].value.args[0].id == p0 and not redefined:
-        ctx.holds(clean, masks[0], "NaN mask computed on the original samples")
-    else:
-        ctx.violated(clean, masks[0] if masks else clean.node, "NaN mask is not computed on the original (uncleaned) samples")
-    # (2,3) in find_turns
-    body = [s for s in ft.node.body if not isinstance(s, ast.FunctionDef)]
+            ctx.violated(ft0, st, "samples are dropped on a path that does not warn")
+    # (2) mask from the original samples
+    arg = mask.value.args[0] if mask.value.args else None
+    pre_defs = [s_ for s_ in top if s_.lineno < mask.lineno and isinstance(s_, ast.Assign) and
+                any(isinstance(t_, ast.Name) and t_.id == p0 for t_, _ in tuple_assign_pairs(s_)) and
+                not (mask in walk_stmts([s_]))]
     cfg = CFG(ft.node)
-    call_clean = [s for s in body if isinstance(s, ast.Assign) and isinstance(s.value, ast.Call) and
-                  call_name(s.value) == clean.name]
-    call_corr = [s for s in body if isinstance(s, ast.Expr) and isinstance(s.value, ast.Call) and
-                 corr is not None and call_name(s.value) == corr.name]
-    idx_defs = [s for s in body if isinstance(s, ast.Assign) and isinstance(s.targets[0], ast.Name) and
-                call_corr and isinstance(call_corr[0].value.args[0], ast.Name) and
-                s.targets[0].id == call_corr[0].value.args[0].id]
-    ret = [s for s in body if isinstance(s, ast.Return)]
-    if not (call_clean and ret):
-        raise AnalysisError("find_turns: clean call / return not found")
-    if corr is None or not call_corr or not idx_defs:
-        return _r2_lookup_idiom(ctx, prog, ft, ret[-1])
-    cc = call_corr[0]
-    # post-dominance: every path from index creation to the return passes the correction
-    if cfg.must_pass(cfg.exit, {cfg.node(cc)}, start=cfg.node(idx_defs[0])):
-        ctx.holds(ft, cc, "index correction lies on every path from the index creation to the return")
+    redefined = [s_ for s_ in top if isinstance(s_, ast.Assign) and s_ is not mask and
+                 any(isinstance(t_, ast.Name) and t_.id == p0 for t_, _ in tuple_assign_pairs(s_)) and
+                 cfg.node(s_) is not None and cfg.node(mask) in cfg.reachable(cfg.node(s_))]
+    if isinstance(arg, ast.Name) and arg.id == p0 and not redefined:
+        ctx.holds(ft0, mask, "NaN mask computed on the original samples")
     else:
-        ctx.violated(ft, cc, "a path from the creation of the index array to the return skips the NaN index correction")
-    # the mask handed over is the one returned by clean_nans
-    t = call_clean[0].targets[0]
-    mask_name = t.elts[1].id if isinstance(t, ast.Tuple) and len(t.elts) == 2 else None
-    arg_mask = cc.value.args[1].id if len(cc.value.args) > 1 and isinstance(cc.value.args[1], ast.Name) else None
-    if mask_name and arg_mask == mask_name:
-        ctx.holds(ft, cc, "correction uses the mask returned by the cleaning step")
+        ctx.violated(ft0, mask, "NaN mask is not computed on the original (uncleaned) samples")
+    if not any(any(e_ == "correct" for e_, _ in p_) for p_ in paths):
+        return _r2_lookup_idiom(ctx, prog, ft0, rets[0])
+    # (3) on every path that dropped samples: index created, values read with it, then corrected
+    bad = None
+    for p_ in fpaths:
+        kinds = [e_ for e_, _ in p_]
+        if "index" not in kinds:
+            raise AnalysisError("find_turns: creation of the index array not found on a path")
+        i_idx = max(i_ for i_, e_ in enumerate(kinds) if e_ == "index")
+        if "correct" not in kinds[i_idx:]:
+            bad = bad or ("skip", p_)
+        elif "values" in kinds and kinds.index("values") > kinds.index("correct", i_idx):
+            bad = bad or ("late", p_)
+        elif "values" not in kinds:
+            raise AnalysisError("find_turns: statement reading the turn values not found")
+    cst = next(st for p_ in paths for e_, st in p_ if e_ == "correct")
+    if bad and bad[0] == "skip":
+        ctx.violated(ft0, cst, "a path that drops NaN samples reaches the return without the NaN index correction after the index "
+                     "array was created")
     else:
-        ctx.violated(ft, cc, "correction is not given the NaN mask of the cleaning step")
-    # values read before the correction, from the cleaned samples
-    idx_name = idx_defs[0].targets[0].id
-    vals = [s for s in body if isinstance(s, ast.Assign) and isinstance(s.value, ast.Subscript) and
-            isinstance(s.value.slice, ast.Name) and s.value.slice.id == idx_name]
-    if len(vals) != 1:
-        raise AnalysisError("find_turns: statement reading the turn values not found")
-    if cfg.must_pass(cfg.node(cc), {cfg.node(vals[0])}):
-        ctx.holds(ft, vals[0], "turn values are read with the uncorrected index (positions in the cleaned samples)")
-    else:
-        ctx.violated(ft, vals[0], "turn values are read after the index was shifted to original positions: they address the "
+        ctx.holds(ft0, cst, "index correction lies on every path that dropped samples, behind the creation of the index (%d path(s))"
+                  % len(fpaths))
+    vst = next((st for p_ in paths for e_, st in p_ if e_ == "values"), None)
+    if bad and bad[0] == "late":
+        ctx.violated(ft0, vst, "turn values are read after the index was shifted to original positions: they address the "
                      "cleaned array with indices of the original one")
-    # correction shifts indices at or behind each NaN position by one
-    aug = [s for s in walk_function(corr.node) if isinstance(s, ast.AugAssign)]
+    elif not bad:
+        ctx.holds(ft0, vst, "turn values are read with the uncorrected index (positions in the cleaned samples)")
+    # the correction loop: for pos in ascending positions of the mask: idx[idx >= pos] += 1
+    env = {}
+    for s_ in top:
+        if isinstance(s_, ast.Assign):
+            for t_, v_ in tuple_assign_pairs(s_):
+                if isinstance(t_, ast.Name):
+                    env.setdefault(t_.id, []).append(v_)
+
+    def resolve(e, depth=0):
+        if isinstance(e, ast.Name) and e.id != mname and depth < 5:
+            ds = [d_ for d_ in env.get(e.id, []) if not (isinstance(d_, ast.Constant) and d_.value is None)]
+            if len(ds) == 1:
+                return resolve(ds[0], depth + 1)
+        return e
+    it = resolve(cst.iter) if isinstance(cst, ast.For) else None
+    src = None
+    if isinstance(it, ast.Subscript) and const_value(it.slice) == 0 and isinstance(it.value, ast.Call) and \
+            call_name(it.value) in ("np.where", "np.nonzero") and len(it.value.args) == 1:
+        src = resolve(it.value.args[0])
+    elif isinstance(it, ast.Call) and call_name(it) == "np.flatnonzero" and len(it.args) == 1:
+        src = resolve(it.args[0])
+    if isinstance(src, ast.Name) and src.id == mname:
+        ctx.holds(ft0, cst, "correction iterates over the ascending positions of the NaN mask of the cleaning step")
+    elif src is not None:
+        ctx.violated(ft0, cst, "correction is not given the NaN mask of the cleaning step")
+    else:
+        raise AnalysisError("find_turns: the positions the index correction iterates over were not recognised")
+    aug = [x_ for x_ in walk_stmts(cst.body) if isinstance(x_, ast.AugAssign)]
     ok = False
     if len(aug) == 1 and isinstance(aug[0].target, ast.Subscript) and isinstance(aug[0].op, ast.Add) and \
-            const_value(aug[0].value) == 1:
+            const_value(aug[0].value) == 1 and isinstance(cst.target, ast.Name):
         m = aug[0].target.slice
-        ok = isinstance(m, ast.Compare) and isinstance(m.ops[0], ast.GtE) and isinstance(m.left, ast.Name) and \
-            m.left.id == corr.params[0]
+        ok = isinstance(m, ast.Compare) and len(m.ops) == 1 and (
+            (isinstance(m.ops[0], ast.GtE) and isinstance(m.left, ast.Name) and m.left.id == idx_name and
+             isinstance(m.comparators[0], ast.Name) and m.comparators[0].id == cst.target.id) or
+            (isinstance(m.ops[0], ast.LtE) and isinstance(m.comparators[0], ast.Name) and m.comparators[0].id == idx_name and
+             isinstance(m.left, ast.Name) and m.left.id == cst.target.id))
     if ok:
-        ctx.holds(corr, aug[0], "indices >= NaN position are shifted by one, NaN positions processed in ascending order")
+        ctx.holds(ft0, aug[0], "indices >= NaN position are shifted by one, NaN positions processed in ascending order")
+    elif len(aug) == 1:
+        ctx.violated(ft0, aug[0], "index correction is not 'index[index >= nan_pos] += 1'")
     else:
-        ctx.violated(corr, aug[0] if aug else corr.node, "index correction is not 'index[index >= nan_pos] += 1'")
+        raise AnalysisError("find_turns: the shifting statement of the index correction was not recognised")
 
 
 def _r2_lookup_idiom(ctx, prog, ft, ret):
